@@ -886,7 +886,7 @@ impl Kind for BigKind {
         let run_once = |salt: usize| {
             let cc = cc.clone();
             let idc = idc.clone();
-            exec::run_forked(views, 180, move || {
+            exec::run_forked(views, if tier == Tier::Thorough { 90 } else { 25 }, move || {
                 SALT.store(salt, Ordering::Relaxed);
                 if cc.nodrop && idc != "C14" {
                     body_nodrop(&idc, &cc, tier)
